@@ -287,10 +287,7 @@ static int cmd_compile(int argc, char **argv) {
 }
 
 /* ---------------- run loop ---------------- */
-static Family *families[] = { &fam_daemon, &fam_cop, &fam_store, &fam_heap,
-#ifdef HAVE_FAM_ENV
-    &fam_env,
-#endif
+static Family *families[] = { &fam_daemon, &fam_cop, &fam_store, &fam_heap, &fam_env,
     NULL };
 typedef struct RunArg { Family *f; uint64_t seed; RunOpts *o; } RunArg;
 static int g_result_fd = -1;
